@@ -118,6 +118,45 @@ Theorem C06_direct_answers_end_to_end : forall msg q rs an ns ar e1 e2 h ty,
               (map (fun y => rdata_val (sr_data y)) (x :: xs))).
 Proof. exact from_msg_direct_answers. Qed.
 
+(* THE CNAME CHAIN, semantically.  [precs n e1 rs rends 0]: the first n records with their start and
+   end offsets ([rstands]: the offsets between which they stand; they are determined by the message)
+   and index; [smatch q want t o]: record o is live, its owner labels equal the text t
+   case-insensitively, its type is [want], its class the question's.  [schain q ty pn t os pn' t' os']:
+   starting at the name t (standing at offset pn) with live records os: as long as no record of the
+   requested type matches the current name, follow the FIRST live CNAME record for it, consume it and
+   continue at its target name.  from_msg follows exactly this chain from the question name: if
+   records of the requested type match the name the chain ends at, exactly their values are returned,
+   in wire order, under THAT name, with the question's class and their minimum TTL; if nothing
+   matches there and no CNAME continues (also where every CNAME loop ends), the result is NoAnswer. *)
+Theorem C06_follows_chain_end_to_end : forall msg q rs an ns ar e1 e2 h ty,
+  lenN msg <= 65535 -> 12 <= lenN msg -> questions_stand msg 12 [q] e1 -> records_stand msg e1 rs e2 ->
+  lenN rs = an + ns + ar -> an <= 65535 -> ns <= 65535 -> ar <= 65535 ->
+  read_header msg (c_new msg) = (c_set_pos (c_new msg) 12, Ok h) ->
+  h_qd h = 1 /\ h_an h = an /\ h_ns h = ns /\ h_ar h = ar ->
+  flag_qr (h_flags h) = true -> flag_tc (h_flags h) = false ->
+  forall rends pn t os' x xs, rstands msg e1 rs rends ->
+  schain q ty 12 (qtext q) (precs (N.to_nat an) e1 rs rends 0) pn t os' ->
+  filter (smatch q ty t) os' = x :: xs -> flag_rcode (h_flags h) = 0 ->
+  from_msg msg ty = Ok (mkRRset t (sq_class q) (fold_left N.min (map pttl (x :: xs)) 4294967295) (map pval (x :: xs))).
+Proof. exact from_msg_follows_chain. Qed.
+
+Theorem C06_chain_noanswer_end_to_end : forall msg q rs an ns ar e1 e2 h ty,
+  lenN msg <= 65535 -> 12 <= lenN msg -> questions_stand msg 12 [q] e1 -> records_stand msg e1 rs e2 ->
+  lenN rs = an + ns + ar -> an <= 65535 -> ns <= 65535 -> ar <= 65535 ->
+  read_header msg (c_new msg) = (c_set_pos (c_new msg) 12, Ok h) ->
+  h_qd h = 1 /\ h_an h = an /\ h_ns h = ns /\ h_ar h = ar ->
+  flag_qr (h_flags h) = true -> flag_tc (h_flags h) = false ->
+  forall rends pn t os', rstands msg e1 rs rends ->
+  schain q ty 12 (qtext q) (precs (N.to_nat an) e1 rs rends 0) pn t os' ->
+  filter (smatch q ty t) os' = [] -> Forall (fun o => smatch q T_CNAME t o = false) os' -> flag_rcode (h_flags h) = 0 ->
+  from_msg msg ty = Err NoAnswer.
+Proof. exact from_msg_chain_noanswer. Qed.
+
+(* the premises are satisfiable: "a." A? answered by a. CNAME b. and b. A 5.6.7.8 (TTL 30) *)
+Example C06_chain_example :
+  from_msg example_chain_msg T_A = Ok (mkRRset [x62; x2e] 1 30 [RD_A 84281096]).
+Proof. exact example_chain_end_to_end. Qed.
+
 (* the premises are satisfiable: the 35-octet response of C02_whole_message_example *)
 Example C06_end_to_end_example :
   from_msg example_msg T_A = Ok (mkRRset [x61; x2e] 1 60 [RD_A 16909060]).
